@@ -38,13 +38,20 @@ def _alarm(signum, frame):
     raise _Timeout()
 
 
+TIMEOUTS = [0]
+
+
 def guard(fn, *a, **k):
-    """run an implementation call; an exception (or a 10 s hang) is an observation"""
+    """run an implementation call; an exception (or a 10 s hang) is an observation.  After three hangs nothing
+    more is run (the run ends with a violation, see `check_source`) so that a looping mutant cannot eat the budget."""
+    if TIMEOUTS[0] >= 3:
+        return ("exc", "Timeout (not run: earlier calls hung)")
     old = signal.signal(signal.SIGALRM, _alarm)
     signal.setitimer(signal.ITIMER_REAL, 10)
     try:
         return ("ok", fn(*a, **k))
     except _Timeout:
+        TIMEOUTS[0] += 1
         return ("exc", "Timeout")
     except Exception as e:  # noqa: BLE001
         return ("exc", type(e).__name__ + ": " + str(e)[:80])
@@ -581,6 +588,24 @@ def src_key(case, S):
 
 
 def check_source(ctx, drv, case, only=None):
+    """never lets an exception of the implementation (or caused by an unexpected answer of it) escape: on the
+    unchanged tree none occurs, so under a changed tree it is an observation about the implementation"""
+    try:
+        _check_source(ctx, drv, case, only)
+    except RuntimeError as e:
+        if "lean driver" in str(e):
+            raise
+        ctx.violation({**case, "sel": None}, f"exception while exercising the implementation: RuntimeError: {e}")
+    except Exception as e:  # noqa: BLE001
+        import traceback
+        tb = traceback.extract_tb(e.__traceback__)[-1]
+        ctx.violation({**case, "sel": None},
+                      f"exception while exercising the implementation: {type(e).__name__}: {str(e)[:120]} ({tb.name}:{tb.lineno})")
+    if TIMEOUTS[0] >= 3:
+        ctx.violation({**case, "sel": None}, "calls of the implementation did not return within 10 s (3 times)")
+
+
+def _check_source(ctx, drv, case, only=None):
     kind = case["kind"]
     L = case["labels"]
     h, outs = build(case)
@@ -673,7 +698,7 @@ def check_source(ctx, drv, case, only=None):
         lines.append(f"{kind} q 0")
         want.append(tok_snap(case, S))
         tags.append(("source-after", full))
-        if ctx.too_many():
+        if ctx.too_many() or TIMEOUTS[0] >= 3:
             break
 
     for cp in copies:
@@ -684,7 +709,13 @@ def check_source(ctx, drv, case, only=None):
     ans = drv.batch(lines)
     for ln, a, w, (tag, full) in zip(lines, ans, want, tags):
         got = a if isinstance(w, str) else parse_model(kind, a)
-        if got != w:
+        same = got == w
+        if same and not isinstance(w, str) and w[0] != "exc":
+            # the model mirrors the construction order of the code: listings must also agree as sequences
+            same = list(got[1]) == list(w[1]) and list(got[2]) == list(w[2])
+            if not same:
+                ctx.count("order_only_differences")
+        if not same:
             ctx.disagree(full if full is not None else {**case, "sel": None},
                          f"[{tag}] model answers {a!r} to {ln!r}, implementation gives {w!r}")
             break
@@ -780,11 +811,12 @@ FIXED_SOURCES = [
 
 def run(ctx):
     drv = ctx.driver() if ctx.model_available else None
-    n = ctx.scale(14, 330)
+    n = ctx.scale(30, 600)
     for case in FIXED_SOURCES:
-        check_source(ctx, drv, case)
+        if not ctx.too_many() and TIMEOUTS[0] < 3:
+            check_source(ctx, drv, case)
     for _ in range(n):
-        if ctx.too_many() or (ctx.time_left() is not None and ctx.time_left() < 15):
+        if ctx.too_many() or TIMEOUTS[0] >= 3 or (ctx.time_left() is not None and ctx.time_left() < 15):
             break
         check_source(ctx, drv, gen_source(ctx.rng))
 
